@@ -149,10 +149,23 @@ class _Targets:
         shutil.rmtree(self.dir, ignore_errors=True)
 
 
+_LOOP = None
+_LOOP_PID = None
+
+
+def _loop():
+    """One event loop per process (asyncio.run would build and tear down a loop — sockets, epoll — per call)."""
+    global _LOOP, _LOOP_PID
+    if _LOOP is None or _LOOP_PID != os.getpid() or _LOOP.is_closed():
+        _LOOP = asyncio.new_event_loop()
+        _LOOP_PID = os.getpid()
+    return _LOOP
+
+
 def execute(tool, args):
     """Run one tool call.  Returns ("ok", envelope) or ("raise", "<Type>: msg")."""
     try:
-        return "ok", asyncio.run(_tool(tool).execute(**args))
+        return "ok", _loop().run_until_complete(_tool(tool).execute(**args))
     except BaseException as e:  # noqa: BLE001 - the property gives the tools no licence to raise anything
         if isinstance(e, (KeyboardInterrupt, SystemExit)):
             raise
